@@ -1139,6 +1139,8 @@ def gen_order(seed):
         return _order_sandwich(g)
     if r0 < 0.32:
         return _hidden_window_reuse(g)
+    if r0 < 0.42:
+        return _renamed_sort_key(g)
     h = g.add_table("t", cols=["k", "g", "x", "y", "f", "b", "s"])
     w = {"arrange": 4, "mutate_win": 3, "mutate": 1.5, "filter": 1.5, "slice_head": 1.5, "select": 0.8, "rename": 0.8, "alias": 0.4,
          "group_by": 0.7, "ungroup": 0.7, "mutate_agg": 0.7}
@@ -1191,6 +1193,43 @@ def _hidden_window_reuse(g):
             h = st["out"]
             probes.append(h)
     return g.finish(probes)
+
+
+def _renamed_sort_key(g):
+    """arrange by a column, then give its NAME to another column (overwriting mutate / rename swap) and arrange by
+    that name: two different columns carry one name in the ORDER BY history - the older one must keep breaking ties
+    (stable arrange), for slice_head and for window functions that follow the verb order."""
+    rng = g.rng
+    h = g.add_table("t", cols=["k", "g", "x", "y", "f", "b", "s"], shape=rng.choice([None, "small_dups", "small_dups"]))
+    low = ["g", "b", "s"]
+    n1 = rng.choice(low)
+    n2 = rng.choice([c for c in low if c != n1])
+    first = [{"e": col(h, n1), "desc": rng.random() < 0.4, "nl": rng.choice([None, True, False])}]
+    if rng.random() < 0.5:
+        first.append({"e": col(h, rng.choice(["x", "y"])), "desc": rng.random() < 0.5, "nl": None})
+    first.append({"e": col(h, "k"), "desc": rng.random() < 0.3, "nl": None})
+    steps = [{"verb": "arrange", "by": first}]
+    if rng.random() < 0.6:
+        steps.append({"verb": "mutate", "kw": [[n1, rng.choice([col(h, n2), fn("coalesce", col(h, n2), col(h, n2))])]]})
+    else:
+        steps.append({"verb": "rename", "map": [[n1, n2], [n2, n1]]})
+    steps.append({"verb": "arrange", "by": [{"e": cname(n1), "desc": rng.random() < 0.4, "nl": rng.choice([None, True, False])}]})
+    tail = rng.choice(["slice", "window", "window_slice", "none"])
+    if tail in ("window", "window_slice"):
+        steps.append({"verb": "mutate", "kw": [["rn", fn("row_number")], ["sh", fn("shift", cname("k"), lit(1))]]})
+    if tail in ("slice", "window_slice"):
+        steps.append({"verb": "slice_head", "n": rng.choice([1, 2, 3, 5]), "offset": rng.choice([0, 0, 1, 2])})
+    probes = []
+    for st in steps:
+        st = dict(st, **{"in": h, "out": g.new_handle()})
+        if not g.try_step(st):
+            g.nh -= 1
+            break
+        h = st["out"]
+        if st["verb"] != "mutate" or tail != "none":
+            probes.append(h)
+    g.features.add("renamed_sort_key")
+    return g.finish(probes[-3:] or [h])
 
 
 def _order_sandwich(g):
